@@ -185,14 +185,16 @@ class Gen:
         c = r.random()
         names = [n for n, t in self.scalars.items() if t[0] in kinds]
         arrs = [n for n, (t, rr, cc, hp) in self.arrays.items() if t[0] in kinds and not hp and n not in self.it.prog.pnames]
-        if c < 0.25 and names:
-            return r.choice(names)
-        if c < 0.35 and arrs:
-            n = r.choice(arrs)
-            t, rr, cc, hp = self.arrays[n]
-            k = r.randrange(rr * cc)
-            return "%s[%s]" % (n, self.int_expr_for(k, depth=r.choice([0, 0, 1])))
-        if c < 0.35 + self.o["params"] and "f" in kinds:
+        if c < 0.25:
+            if names:
+                return r.choice(names)
+        elif c < 0.35:
+            if arrs:
+                n = r.choice(arrs)
+                t, rr, cc, hp = self.arrays[n]
+                k = r.randrange(rr * cc)
+                return "%s[%s]" % (n, self.int_expr_for(k, depth=r.choice([0, 0, 1])))
+        elif c < 0.35 + self.o["params"] and "f" in kinds:
             return "{%s}" % self.param()
         return self.num_lit(kinds)
 
